@@ -20,6 +20,11 @@ CHECKS = {
    technique="property-based testing with a counting global allocator: generated, idiom and corpus programs x generated histories, repeated create-play-drop cycles and repeated reset/load rounds; invariant: live heap bytes return to / stay at the baseline",
    text="The harness binary counts live heap bytes per thread. After two warm-up cycles every create -> play -> drop cycle must leave the live byte count exactly where it was, and repeated reset+replay rounds and repeated load_state of one save on one instance must not raise it above the first measured round. Exploration only.",
    note="Exact equality; per-thread counters; histories are replayed identically in every cycle."),
+ "C20": dict(
+   category="exploration", design="DESIGN.md §5 C20",
+   technique="property-based differential testing of the built rinklecate binary against a model of its documented loop driven by the library: generated programs over a hostile vocabulary x generated input scripts x {plain, JSON} x {-k}; JSON stream parsed object by object; compile mode compared byte for byte with the library and planted compile errors compared with the library's error text",
+   text="Each case writes a generated source to a scratch directory and runs the freshly built tool as a child process with a scripted standard input. JSON mode: stdout must be a sequence of well-formed objects of documented kinds whose text/tags/choices equal the model's; plain mode: stdout must be exactly the model's lines, tag lines and numbered choices separated by prompts and the tool's own single lines. -o output must equal Compiler::with_options(count_all_visits, source_filename).compile byte for byte; planted errors must exit non-zero and carry the library's message (with file and line when the library gives them). Exploration only.",
+   note="stderr wording during play, help text and banners are not compared. A tool process that dies (panic, signal) is a violation."),
  "C05": dict(
    category="translation_validation", design="DESIGN.md §5 C05",
    technique="differential testing over generated inputs: every corpus (source, reference JSON) pair is compiled and both documents are played by the same runtime along enumerated (breadth-first) and generated (proptest tapes, shrunk) choice paths under several story seeds; transcripts and final globals must be equal",
